@@ -29,48 +29,48 @@ type jobClient struct {
 
 func (j *jobClient) RegisterSourceRunner(ctx context.Context, id *jobpb.NodeIdentity) error {
 	return j.g.call(&Call{Point: PJobRegisterSR, From: j.from, To: "job", Msg: id}, func() error {
-		j.g.job.HandleRegisterSourceRunner(id)
+		j.g.theJob().HandleRegisterSourceRunner(id)
 		return nil
 	})
 }
 
 func (j *jobClient) DeregisterSourceRunner(ctx context.Context, id *jobpb.NodeIdentity) error {
 	return j.g.call(&Call{Point: PJobDeregister, From: j.from, To: "job", Msg: id}, func() error {
-		j.g.job.HandleDeregisterSourceRunner(id)
+		j.g.theJob().HandleDeregisterSourceRunner(id)
 		return nil
 	})
 }
 
 func (j *jobClient) RegisterOperator(ctx context.Context, id *jobpb.NodeIdentity) error {
 	return j.g.call(&Call{Point: PJobRegisterOp, From: j.from, To: "job", Msg: id}, func() error {
-		j.g.job.HandleRegisterOperator(id)
+		j.g.theJob().HandleRegisterOperator(id)
 		return nil
 	})
 }
 
 func (j *jobClient) DeregisterOperator(ctx context.Context, id *jobpb.NodeIdentity) error {
 	return j.g.call(&Call{Point: PJobDeregister, From: j.from, To: "job", Msg: id}, func() error {
-		j.g.job.HandleDeregisterOperator(id)
+		j.g.theJob().HandleDeregisterOperator(id)
 		return nil
 	})
 }
 
 func (j *jobClient) OperatorCheckpointComplete(ctx context.Context, req *snapshotpb.OperatorCheckpoint) error {
 	return j.g.call(&Call{Point: PJobOpAck, From: j.from, To: "job", Ckpt: req.CheckpointId, Msg: req}, func() error {
-		return j.g.job.HandleOperatorCheckpointComplete(ctx, req)
+		return j.g.theJob().HandleOperatorCheckpointComplete(ctx, req)
 	})
 }
 
 func (j *jobClient) OnSourceRunnerCheckpointComplete(ctx context.Context, req *jobpb.SourceRunnerCheckpointCompleteRequest) error {
 	cur, _, _ := DecodeSplitStates(req.SplitStates)
 	return j.g.call(&Call{Point: PJobSrAck, From: j.from, To: "job", Ckpt: req.CheckpointId, Cursors: cur, Msg: req}, func() error {
-		return j.g.job.HandleSourceRunnerCheckpointComplete(ctx, req)
+		return j.g.theJob().HandleSourceRunnerCheckpointComplete(ctx, req)
 	})
 }
 
 func (j *jobClient) NotifySplitsFinished(ctx context.Context, sourceRunnerID string, splitIDs []string) error {
 	return j.g.call(&Call{Point: PJobSplitsDone, From: j.from, To: "job"}, func() error {
-		return j.g.job.HandleNotifySplitsFinished(sourceRunnerID, splitIDs)
+		return j.g.theJob().HandleNotifySplitsFinished(sourceRunnerID, splitIDs)
 	})
 }
 
@@ -121,7 +121,15 @@ func (o *opClient) HandleEventBatch(ctx context.Context, batch []*workerpb.Event
 		case *workerpb.Event_SourceComplete:
 			c.Kind = KComplete
 		}
-		do := func() error { return n.op.HandleEvent(ctx, o.senderID, ev) }
+		asm := o.g.assemblyNo()
+		do := func() error {
+			// a call of an EARLIER assembly (survivors restart) whose caller has given up meanwhile - the runner's
+			// deployment was cancelled or its process is gone - is a request the client has reset: it is not handled
+			if o.g.assemblyNo() != asm && ctx.Err() != nil {
+				return fmt.Errorf("cluster: late call of a cancelled caller: %w", ctx.Err())
+			}
+			return n.op.HandleEvent(ctx, o.senderID, ev)
+		}
 		if c.Kind == KWatermark {
 			if o.g.isBooting() {
 				continue
@@ -154,12 +162,23 @@ func (o *opClient) Deploy(ctx context.Context, req *workerpb.DeployOperatorReque
 	if n == nil {
 		return fmt.Errorf("cluster: unknown operator %s", o.node.Id)
 	}
+	o.g.mu.Lock()
+	o.g.deploysSeen++
+	o.g.mu.Unlock()
 	var cks []OpCheckpoint
 	for _, ck := range req.Checkpoints {
 		cks = append(cks, opCheckpoint(ck))
 	}
 	return o.g.call(&Call{Point: POpDeploy, From: o.from, To: label, Msg: req}, func() error {
 		err := n.op.HandleDeploy(ctx, req, n.sink)
+		// the node's position changes when the deployment has taken effect, not when the call arrives: an event of the
+		// previous assembly that the operator still finishes before HandleDeploy gets its lock belongs to the old position
+		for i, id := range req.Operators {
+			if id.Id == n.id {
+				n.pos.Store(int32(i))
+				n.of.Store(int32(len(req.Operators)))
+			}
+		}
 		o.g.c.observe(Obs{Kind: "op.deployed", Gen: o.g.n, Node: label, OpCkpts: cks, Text: errText(err)})
 		return err
 	})
